@@ -166,9 +166,10 @@ def edge_conditions(fn, target_bbs):
                 live.append((v, s))
         if t["otherwise"] in can and (t["otherwise"] in targets or fn.can_reach(t["otherwise"], targets, avoid=[b])):
             live.append(("otherwise", t["otherwise"]))
-        succs = {s for _, s in live}
-        if len(succs) == 1 and len(live) >= 1 and len(set(fn.succ(b))) > 1:
-            # all live edges lead to the same successor; report the values
+        n_edges = len(t["targets"]) + 1
+        if 1 <= len(live) < n_edges and len(set(fn.succ(b))) > 1:
+            # some out-edge cannot lead to a target any more: the values of the live ones are a necessary condition
+            # (the live edges may go to different successors: `A | B if g =>` tests the guard once per alternative)
             out.append((b, [v for v, _ in live]))
     return out
 
@@ -228,6 +229,143 @@ def enum_names(F, ty):
     return None
 
 
+def gate_for(F, fn, defs, b, vals):
+    """describe the decision `switch at block b takes one of vals`"""
+    t = fn.term(b)
+    l = op_local(t["op"])
+    if l is None:
+        return None
+    g = {"bb": b, "ln": t["ln"], "callee": None, "enum": None}
+    o = defs.origin(l)
+    if o["k"] == "rv" and o["rv"]["k"] == "discr":
+        ety = o["rv"]["of"]
+        names = enum_names(F, ety) or {}
+        allowed = []
+        for v in vals:
+            if v == "otherwise":
+                listed = {x[0] for x in t["targets"]}
+                allowed.extend(n for d, n in names.items() if d not in listed)
+            else:
+                allowed.append(names.get(v, v))
+        g["kind"] = "enum"
+        g["enum"] = ety.split("<", 1)[0]
+        g["allowed"] = sorted(map(str, allowed))
+        src = defs.origin_place(o["rv"]["place"], 0, PASS_THROUGH)
+        g["origin"] = src
+    else:
+        g["kind"] = "bool"
+        if t["ty"] == "bool":
+            al = []
+            for v in vals:
+                if v == "otherwise":
+                    listed = {x[0] for x in t["targets"]}
+                    al.extend(x for x in (False, True) if int(x) not in listed)
+                else:
+                    al.append(v != 0)
+            g["allowed"] = sorted(set(al))
+        else:
+            g["allowed"] = vals
+        src = defs.origin(l, 0, ())
+        # `!x` : flip
+        if src["k"] == "rv" and src["rv"]["k"] == "un" and src["rv"]["op"] == "Not":
+            inner = op_local(src["rv"]["a"])
+            if inner is not None:
+                src = defs.origin(inner)
+                g["allowed"] = sorted(not v for v in g["allowed"]) if all(isinstance(v, bool) for v in g["allowed"]) else g["allowed"]
+        g["origin"] = src
+    base = g["origin"]
+    while base.get("k") == "field":
+        base = base["base"]
+    if base.get("k") == "call":
+        g["callee"] = callee(base["t"]) or callee_def(base["t"])
+        g["call_def"] = callee_def(base["t"])
+        g["call_bb"] = base["bb"]
+        g["call_t"] = base["t"]
+    return g
+
+
+def origin_key(o):
+    """identity of a tested value (two switches on copies of one value get the same key)"""
+    k = o.get("k")
+    if k == "field":
+        pr = tuple((e.get("f"), e.get("n")) if isinstance(e, dict) else e for e in o.get("proj", []))
+        return ("field", pr, origin_key(o["base"]))
+    if k == "call":
+        return ("call", o.get("bb"))
+    if k == "arg":
+        return ("arg", o.get("n"))
+    if k in ("rv", "agg"):
+        return (k, o.get("bb"), o.get("l"))
+    return (k, o.get("l"), repr(o.get("c"))[:40])
+
+
+def _merged_path_gates(F, fn, target, defs, have, limit=96):
+    """decisions that hold on every path to `target` although no single switch block dominates it: the value tested is
+    the same on all paths (`A | B if guard =>` evaluates the guard once per alternative). The allowed values are united."""
+    reach = fn.reachable()
+    # climb the straight-line prefix: the join we are interested in is the first block with several predecessors
+    for _ in range(64):
+        preds = [p for p in fn.pred(target) if p in reach]
+        if len(preds) != 1 or len(set(fn.succ(preds[0]))) > 1:
+            break
+        target = preds[0]
+    dom = fn.dominators().get(target, set())
+    paths, stack = [], [(target, (), frozenset([target]))]
+    while stack:
+        b, conds, seen = stack.pop()
+        preds = [p for p in fn.pred(b) if p in reach]
+        if not preds:
+            paths.append(conds)
+            continue
+        for p in preds:
+            if p in seen:
+                continue
+            c2 = conds
+            t = fn.term(p)
+            if t["k"] == "switch" and len(set(fn.succ(p))) > 1:
+                vals = [v for v, s_ in t["targets"] if s_ == b] + (["otherwise"] if t["otherwise"] == b else [])
+                c2 = conds + ((p, tuple(vals)),)
+            if p in dom and p != target:
+                paths.append(c2)
+            else:
+                stack.append((p, c2, seen | {p}))
+        if len(paths) + len(stack) > limit:
+            return []
+    if len(paths) < 2:
+        return []
+    per_path = []
+    for conds in paths:
+        atoms = {}
+        for b, vals in conds:
+            g = gate_for(F, fn, defs, b, list(vals))
+            if g is None:
+                continue
+            key = (g["kind"], g["enum"], origin_key(g["origin"]))
+            al = set(map(str, g["allowed"])) if g["kind"] == "enum" else set(g["allowed"]) if all(isinstance(v, bool) for v in g["allowed"]) else None
+            if al is None:
+                continue
+            if key in atoms:
+                atoms[key] = (atoms[key][0] & al, atoms[key][1])
+            else:
+                atoms[key] = (al, g)
+        per_path.append(atoms)
+    out = []
+    common = set(per_path[0])
+    for a in per_path[1:]:
+        common &= set(a)
+    for key in sorted(common, key=repr):
+        if key in have:
+            continue
+        al = set()
+        for a in per_path:
+            al |= a[key][0]
+        g = dict(per_path[0][key][1])
+        g["allowed"] = sorted(al)
+        g["merged"] = True
+        out.append(g)
+    return out
+
+
 def gates(F, fn, target_bbs, defs=None):
     """Conditions every path to target_bbs must satisfy, described by where the tested value
     comes from. Each gate: {'bb','kind':'bool'|'enum','allowed':[...], 'origin':origin-dict,
@@ -235,47 +373,12 @@ def gates(F, fn, target_bbs, defs=None):
     defs = defs or Defs(fn)
     out = []
     for b, vals in edge_conditions(fn, target_bbs):
-        t = fn.term(b)
-        l = op_local(t["op"])
-        if l is None:
-            continue
-        g = {"bb": b, "ln": t["ln"], "callee": None, "enum": None}
-        o = defs.origin(l)
-        if o["k"] == "rv" and o["rv"]["k"] == "discr":
-            ety = o["rv"]["of"]
-            names = enum_names(F, ety) or {}
-            allowed = []
-            for v in vals:
-                if v == "otherwise":
-                    listed = {x[0] for x in t["targets"]}
-                    allowed.extend(n for d, n in names.items() if d not in listed)
-                else:
-                    allowed.append(names.get(v, v))
-            g["kind"] = "enum"
-            g["enum"] = ety.split("<", 1)[0]
-            g["allowed"] = sorted(map(str, allowed))
-            src = defs.origin_place(o["rv"]["place"], 0, PASS_THROUGH)
-            g["origin"] = src
-        else:
-            g["kind"] = "bool"
-            g["allowed"] = [v != 0 for v in vals] if t["ty"] == "bool" else vals
-            src = defs.origin(l, 0, ())
-            # `!x` : flip
-            if src["k"] == "rv" and src["rv"]["k"] == "un" and src["rv"]["op"] == "Not":
-                inner = op_local(src["rv"]["a"])
-                if inner is not None:
-                    src = defs.origin(inner)
-                    g["allowed"] = [not v for v in g["allowed"]]
-            g["origin"] = src
-        base = g["origin"]
-        while base.get("k") == "field":
-            base = base["base"]
-        if base.get("k") == "call":
-            g["callee"] = callee(base["t"]) or callee_def(base["t"])
-            g["call_def"] = callee_def(base["t"])
-            g["call_bb"] = base["bb"]
-            g["call_t"] = base["t"]
-        out.append(g)
+        g = gate_for(F, fn, defs, b, vals)
+        if g is not None:
+            out.append(g)
+    if len(target_bbs) == 1:
+        have = {(g["kind"], g["enum"], origin_key(g["origin"])) for g in out}
+        out.extend(_merged_path_gates(F, fn, list(target_bbs)[0], defs, have))
     return out
 
 
